@@ -2,14 +2,15 @@
 import os, re, shutil
 from vf.core import run, Proc, fault_text
 
-def aldor(b, args, cwd, lib='aldor', env=None, timeout=120, variant='plain', stdin=None):
+def aldor(b, args, cwd, lib='aldor', env=None, timeout=120, variant='plain', stdin=None, noaslr=False):
     exe = b.aldor if variant == 'plain' else b.aldor_asan
     e = {}
     if variant != 'plain':
         from vf.core import ASAN_ENV
         e.update(ASAN_ENV)
     if env: e.update(env)
-    return run([exe] + b.flags(lib) + list(args), cwd=cwd, env=e, timeout=timeout, stdin=stdin)
+    pre = ['setarch', 'x86_64', '-R'] if noaslr else []
+    return run(pre + [exe] + b.flags(lib) + list(args), cwd=cwd, env=e, timeout=timeout, stdin=stdin, mem_mb=(8000 if variant == 'plain' else None))
 
 def interp_src(b, cwd, src, opts=(), lib='aldor', env=None, timeout=120):
     """aldor -Ginterp x.as ; compiler messages suppressed with -M no-warnings"""
